@@ -2835,3 +2835,94 @@ def q02t(ctx, lens=(2, 2), with_empty=False, domain='letters', settings=None):
                         max_models=ctx.cap('Q02t'), second=ctx.second, workdir=ctx.workdir,
                         second_timeout_s=getattr(ctx, 'second_timeout', 60), blocker=blocker)
     return ob
+
+
+# =========================================================================== Q15t  end to end: highlighting only adds colour codes
+def m_to_lowercase_identity_on_lowercase_letters(ex, st, fr, callee, a, depth):
+    """str::to_lowercase on a string whose characters are all confined to a..z by the path condition: the string itself"""
+    s_ = as_str(st, a[0])
+    for x in s_.items:
+        if not ex.must(st, z3.And(z3.UGE(x, BV(0x61, 32)), z3.ULE(x, BV(0x7A, 32)))):
+            raise Inconclusive('to_lowercase on characters outside a..z (use the table model)')
+    return s_
+
+
+@guarded
+def q15t(ctx, lens=(2, 1), settings=None):
+    """Q15t: the whole of build() with and without syntax highlighting: removing the SGR sequences from the highlighted output gives exactly the plain output"""
+    settings = dict(settings or {})
+    stag = ''.join('[%s]' % k for k in sorted(settings) if settings[k])
+    ob = Obligation('Q15t[%s]%s' % (','.join(map(str, lens)), stag), q15t.__doc__)
+    ob.domain = ('%d test cases of %s letters a..z (every equality pattern); settings: %s; RegExp::from is run once, Display for RegExp twice '
+                 '(is_output_colorized true / false)' % (len(lens), '/'.join(map(str, lens)), ', '.join(k for k in sorted(settings) if settings[k]) or 'default'))
+    ob.bound = 'exactly these lengths'
+    cases = [[z3.BitVec('s%d_%d' % (i, j), 32) for j in range(n)] for i, n in enumerate(lens)]
+    allv = [v for c in cases for v in c]
+    assume = [z3.And(z3.UGE(v, BV(0x61, 32)), z3.ULE(v, BV(0x7A, 32))) for v in allv]
+    fields = ctx.mir.structs.get('RegExpConfig')
+    names = {'repetitions': 'is_repetition_converted', 'verbose': 'is_verbose_mode_enabled', 'capture': 'is_capturing_group_enabled',
+             'no_start_anchor': 'is_start_anchor_disabled', 'no_end_anchor': 'is_end_anchor_disabled', 'ignore_case': 'is_case_insensitive_matching'}
+    if settings.get('no_start_anchor') and settings.get('no_end_anchor'):
+        raise Inconclusive('both anchors disabled: RegExp::from then compiles the candidate with the regex engine (not modelled)')
+    texts = {}
+    ex = ctx.new_exec([(P(r'^<str as UnicodeSegmentation>::graphemes$'), m_graphemes_per_letter),
+                       (P(r'impl str>::to_lowercase$'), m_to_lowercase_identity_on_lowercase_letters)] + make_gc_models(ctx) +
+                      make_regex_models(ctx, lambda x: orbit_rep(ctx, x)))
+    f_from = ctx.mir.one_fn(r'^regexp::<impl at [^>]*>::from$')
+    f_fmt = display_fmt_name(ctx, 'RegExp')
+    t0 = time.time()
+    bads = []
+    npaths = 0
+
+    def run(colored):
+        off = {k: (BV(1, 32) if k.startswith('minimum_') else z3.BoolVal(False)) for k in fields}
+        for k, val in settings.items():
+            off[names[k]] = z3.BoolVal(bool(val))
+        off['is_output_colorized'] = z3.BoolVal(colored)
+        st = State(pc=list(assume))
+        cfg = st.ref(config_value(ctx, off))
+        v = st.ref(ListV([SymStr(c) for c in cases]))
+        res = []
+        for o in ex.run_fn(st, f_from, [v, cfg]):
+            if o.panic:
+                res.append((o.st, None))
+                continue
+            buf = o.st.ref(SymStr(()))
+            for o2 in ex.run_fn(o.st, f_fmt, [o.st.ref(o.val), buf]):
+                res.append((o2.st, None if o2.panic else list(o2.st.load(buf).items)))
+        return res
+    plain = run(False)
+    col = run(True)
+    for sc, tc in col:
+        if tc is None:
+            bads.append(z3.And(*sc.pc))
+            continue
+        stripped, removed = strip_sgr(tc)
+        if any(concrete(x) == 0x1b for x in stripped):
+            raise Inconclusive('highlighted output contains an ESC outside a recognised SGR sequence')
+        for sp, tp in plain:
+            extra = [c for c in sp.pc if not any(c.eq(d) for d in sc.pc)]
+            if extra and not ex.feasible(sc.pc, z3.And(*extra)):
+                continue
+            npaths += 1
+            both = list(sc.pc) + extra
+            cls = 'sgr_pairs=%d' % (removed // 2)
+            ob.classes_seen[cls] = ob.classes_seen.get(cls, 0) + 1
+            if tp is None or len(tp) != len(stripped):
+                bads.append(z3.And(*both))
+            else:
+                bads.append(z3.And(*both, z3.Not(z3.And(*[x == y for x, y in zip(stripped, tp)]))))
+    ctx.finish(ob, ex, t0)
+    ob.paths = npaths
+
+    def blocker(m):
+        vals = [m.eval(c, model_completion=True).as_long() for c in allv]
+        parts = []
+        for i in range(len(allv)):
+            for j in range(i + 1, len(allv)):
+                parts.append((allv[i] == allv[j]) if vals[i] == vals[j] else (allv[i] != allv[j]))
+        return z3.Not(z3.And(*parts)) if parts else z3.BoolVal(False)
+    ob.verdict = decide(ob.qid, assume + ob.defs, z3.Or(*bads) if bads else z3.BoolVal(False), allv, all_sat=True,
+                        max_models=ctx.cap('Q15t'), second=ctx.second, workdir=ctx.workdir,
+                        second_timeout_s=getattr(ctx, 'second_timeout', 60), blocker=blocker)
+    return ob
